@@ -60,7 +60,8 @@ class Conv:
         if isinstance(t, Slice):
             return ("slice", t.name, t.slice.start, t.slice.stop, t.slice.step, t.dtype)
         cls = get_origin(type(t)) or type(t)
-        if cls in (Unary, Binary, Reduce, Subs, Contraction, Stack, Cat, Lambda, Align, Independent):
+        from funsor.terms import Finitary
+        if cls in (Unary, Binary, Reduce, Subs, Contraction, Stack, Cat, Lambda, Align, Independent, Finitary):
             return self.app(cls, t._ast_values)
         raise NoSemantics("term class %s" % cls.__name__)
 
@@ -127,6 +128,13 @@ class Conv:
         if cls is Align:
             arg, names = args
             return ("align", self.term(arg), tuple(names))
+        from funsor.terms import Finitary
+        if cls is Finitary:
+            op, fargs = args
+            n = getattr(op, "name", None) or op.__name__
+            if n == "einsum":
+                return ("einsum", op.defaults["equation"], tuple(self.term(x) for x in fargs))
+            raise NoSemantics("finitary op %s" % n)
         if cls is Independent:
             fn, reals_var, bint_var, diag_var = args
             return ("independent", self.term(fn), reals_var, bint_var, diag_var)
